@@ -215,9 +215,22 @@ def run(ctx):
     # a self-referential equality (occurs check of EliminateVariable) -- corpus
     jobs.append(dict(text='(set-logic ALL)\n(declare-const x Int)\n(assert (= x (+ 1 (* 2 x))))\n(check-sat)\n',
                      opts=['--strategy', 'hierarchical', '-j', '1', '--check-loops'], cmd=[e2e.TOKPRED, 'all', 'x', '='], env={}, timeout=100))
+    # growth: a command that accepts everything, with the deleting mutators switched off, so that chains which only ever
+    # grow the input (fresh variable -> narrower variable -> inlined -> fresh variable ...) are walked as far as they go
+    GROW = '(set-logic ALL)\n(declare-const v (_ BitVec 4))\n(define-fun g ((p (_ BitVec 4))) (_ BitVec 4) (bvand p v))\n(assert (= (g v) v))\n(check-sat)\n'
+    for strat in ('hierarchical', 'ddmin'):
+        jobs.append(dict(text=GROW, opts=['--strategy', strat, '-j', '1', '--no-core'], cmd=[e2e.TOKPRED, 'all'], env={}, timeout=100))
+    for k in range(16 if ctx.thorough else 4):
+        j = e2ejobs.job(rng, size='small', strategy=rng.choice(['hierarchical', 'hierarchical', 'ddmin']), jobs=1, extra=['--no-core'])
+        j['cmd'] = [e2e.TOKPRED, 'all']
+        j['env'] = {}
+        j['timeout'] = 300 if ctx.thorough else 100
+        jobs.append(j)
     runs = e2e.run_many(jobs)
     for j, r in zip(jobs, runs):
         ctx.case(['run', j['text'], j['opts'], j['cmd'][1:]], len(r.ev('check')) >= 10)
+        if '--no-core' in j['opts']:
+            ctx.count('real runs with an accept-all command and --no-core')
         ctx.count('real runs with --check-loops')
         if r.hung:
             ctx.violation('impl-violation', input=j['text'], options=j['opts'], command=j['cmd'], env=j['env'],
@@ -248,6 +261,10 @@ def run(ctx):
 
 
 def replay(d):
+    if d.get('options') and 'did not terminate' in str(d.get('observed')):
+        r = e2e.run_ddsmt(d['input'], d['options'], d['command'], env=d.get('env') or {}, timeout=100)
+        print('hung:', r.hung, 'tests:', len(r.ev('check')), 'adoptions:', len(r.ev('write')))
+        return 1 if r.hung else 0
     import impl
     import proposals as P
     import random
